@@ -436,10 +436,29 @@ func (node *Node) finalizeNodeAcceptSnapshot(s *common.Snapshot, signers []crypt
 
 	node.TopoWrite(s, signers)
 
+	final, cache, err := node.startRoundAfterNodeAccept(cache)
+	if err != nil {
+		panic(err)
+	}
+
+	chain := node.BootChain(s.NodeId)
+	err = chain.loadState()
+	if err != nil {
+		return err
+	}
+	chain.StepForward()
+	chain.assignNewGraphRound(final, cache)
+	return nil
+}
+
+// startRoundAfterNodeAccept closes round 0, which holds the accept snapshot
+// only, and persists round 1 of the accepted node.
+func (node *Node) startRoundAfterNodeAccept(cache *CacheRound) (*FinalRound, *CacheRound, error) {
+	s := cache.Snapshots[0]
 	final := cache.asFinal()
 	external, err := node.getInitialExternalReference(s)
 	if err != nil {
-		panic(err)
+		return nil, nil, err
 	}
 	cache = &CacheRound{
 		NodeId:    s.NodeId,
@@ -453,17 +472,9 @@ func (node *Node) finalizeNodeAcceptSnapshot(s *common.Snapshot, signers []crypt
 	}
 	err = node.persistStore.StartNewRound(cache.NodeId, cache.Number, cache.References, final.Start)
 	if err != nil {
-		panic(err)
+		return nil, nil, err
 	}
-
-	chain := node.BootChain(s.NodeId)
-	err = chain.loadState()
-	if err != nil {
-		return err
-	}
-	chain.StepForward()
-	chain.assignNewGraphRound(final, cache)
-	return nil
+	return final, cache, nil
 }
 
 func (node *Node) getInitialExternalReference(s *common.Snapshot) (*FinalRound, error) {
